@@ -32,6 +32,10 @@ def obligations(tier):
         add("hexary leaf node classifies and yields its key path", "h_hex_leaf", "b_hex_node", n=n)
         add("hexary extension node classifies and yields its key path", "h_hex_ext", "b_hex_node", n=n)
     add("blank / branch classification", "h_hex_other", "b_hex_other")
+    for n in (0, 1, 2, 5):
+        add("is_blank/leaf/extension/branch_node: exactly one class per node, agreeing with get_node_type", "h_hex_helpers", "b_hex_node", n=n)
+    for l, r in ((32, 32), (31, 33), (33, 31), (0, 64), (64, 0), (16, 48), (32, 31), (1, 32)):
+        add("encode_branch_node refuses children that are not 32 bytes each, or round-trips", "h_branch_node_lens", "b_branch_node_lens", l=l, r=r)
     for n in range(0, (4 if q else 5) + 1):
         add("nibbles_to_bytes(bytes_to_nibbles(b)) == b, nibble values", "h_bytes_nibbles", "b_bytes_nibbles", n=n)
         add("bytes_to_nibbles(nibbles_to_bytes(x)) == x", "h_nibbles_bytes", "b_nibbles_bytes", n=2 * n)
